@@ -98,6 +98,7 @@ def run_pool(ctx, cases, mode, seed_offset=0, label=None, oracle_props=None):
     """mode: single (one thread holding many guards, reproducible) | threads (2–16 threads) | mixed.  Returns True if it ran."""
     oracle_props = oracle_props or [ctx.prop]
     label = label or mode
+    cases = cases * min(ctx.scale(), 4)     # change-directed deepening
     ok, log = cargo_build(ctx, ["pool"])
     if not any(o["name"] == "build:harness-pool" for o in ctx.obligations):
         ctx.add_ob("build:harness-pool", "build", ok, "" if ok else log[-3000:])
